@@ -8,7 +8,7 @@ import re
 
 from .smt import (T, INT, BOOL, REAL, SEQI, STR, TRUE, FALSE, I, And, Or, Not, Eq, Ne, Lt, Le, Gt, Ge, Add,
                   Sub, Mul, Neg, Ite, Implies, FloorDiv, Mod, app, seq_len, seq_concat, seq_unit, seq_empty,
-                  seq_extract, seq_contains_elem, is_lit, lit_val, select, store, arr, to_real)
+                  seq_extract, seq_contains_elem, seq_nth, is_lit, lit_val, select, store, arr, to_real)
 from .state import State, Out, Unsupported
 from .values import *
 from .spec import REG
@@ -514,6 +514,26 @@ def _l_append(ex, st, base, args, kwargs, k, where):
         raise Unsupported("append of a multi-component value")
     s2 = ex.set_seq_items(st, base, seq_concat(ex.seq_items(st, base), seq_unit(c[0])))
     return k(s2, VNone)
+
+
+@method("VList", "remove")
+def _l_remove(ex, st, base, args, kwargs, k, where):
+    """list.remove(x): ValueError when x is not an element; else the FIRST occurrence is dropped (its index i: items[i] == x and
+    x does not occur in items[:i])"""
+    v = args[0]
+    c = to_comps(ex.coerce(st, v, base.elem), base.elem, lambda so: ex.arbitrary(so))
+    if len(c) != 1:
+        raise Unsupported("remove of a multi-component value")
+    items = ex.seq_items(st, base)
+    has = seq_contains_elem(items, c[0])
+    outs = ex.raise_(st.assume(Not(has)), "ValueError", where)
+    i = ex.arbitrary(INT, "rm_ix")
+    s2 = st.assume(has)
+    s2.pc.append(And(Le(I(0), i), Lt(i, seq_len(items)), Eq(seq_nth(items, i), c[0]),
+                     Not(seq_contains_elem(ex.slice_term(items, None, i), c[0]))))
+    s2 = ex.set_seq_items(s2, base, seq_concat(ex.slice_term(items, None, i), ex.slice_term(items, Add(i, I(1)), None)))
+    outs += k(s2, VNone)
+    return outs
 
 
 @method("VList", "insert")
